@@ -31,6 +31,8 @@ DOC_ERRORS = ("ValueError", "TypeError", "SeedNodeDeletionException")
 FLAG_OPS_UB = {"reseed", "rerootnode", "rerootedge", "outgroup", "suppress", "collapseunweighted", "resolve", "resolve_rng",
                "prunesubtree", "filterleaves", "prunenotaxa", "prunetaxa", "retaintaxa", "reorient", "midpoint"}
 NO_MODEL = {"resolve_rng", "midpoint"}
+HUNG = set()          # operations that ran into the time limit
+MAX_FAILURES = 60     # enough to report; the search stops there
 
 
 # ----------------------------------------------------------------------------------------------- world
@@ -305,7 +307,7 @@ def candidates(world, snap, rng, full=False, cats=None):
             for f in flagsets(rng, ["ub"], full):
                 ops.append(dict(op="reorient", k=k, mode=rng.randint(0, 1), **f))
     if want("midpoint") and len(tax_leaves) == len(leaves) >= 2 and len(set(snap.taxbit[i] for i in leaves)) == len(leaves) \
-            and all(tk != "N" for tk in snap.toks[1 + 2 * n + 1:1 + 3 * n]) and all(len(k) != 1 for k in snap.kids):
+            and all(len(k) != 1 for k in snap.kids):
         ops.append(dict(op="midpoint", ub=rng.randint(0, 1), s=1))
     # ---- documented-error stream
     if want("errors"):
@@ -491,8 +493,16 @@ def structure_problems(tree):
 def may_vanish(snap, op):
     """ids (snapshot numbering) of the nodes the operation was asked to remove"""
     o = op["op"]
-    if o in ("remove", "prunesubtree"):
+    if o == "remove":
         return set(snap.subtree(op["c"]))
+    if o == "prunesubtree":
+        # the subtree, and the ancestors that are left without any child by its removal
+        gone = set(snap.subtree(op["c"]))
+        p = snap.parent[op["c"]]
+        while p is not None and p != 0 and all(k in gone for k in snap.kids[p]):
+            gone.add(p)
+            p = snap.parent[p]
+        return gone
     if o == "filterleaves":
         return set(range(snap.n)) - set(op["keep"])
     if o == "prunetaxa":
@@ -623,10 +633,11 @@ def do_step(ctx, world, op, hist, pending, single_check=True):
     line = to_line(snap, op)
     raised = None
     try:
-        with time_limit(20):
+        with time_limit(5):
             execute(world, snap, op)
     except Timeout:
         raised = "Timeout"
+        HUNG.add(op["op"])          # do not issue this operation again in this run: every further hang costs seconds
     except RecursionError:
         raised = "RecursionError"
     except Exception as e:
@@ -635,12 +646,14 @@ def do_step(ctx, world, op, hist, pending, single_check=True):
     expect = op.get("expect")
     if op["op"] == "filterleaves" and filter_hits_seed(snap, op["keep"], bool(op["rec"])):
         expect = "SeedNodeDeletionException"
-    if raised is not None and raised != expect:
+    if raised is not None and raised != expect and raised != "Timeout":
         fails.append(("exception", "%s raised %s on an input that meets its documented argument conditions" % (op["op"], raised)))
     if raised is None and expect is not None:
         fails.append(("missing-error", "%s completed although %s is documented for this argument" % (op["op"], expect)))
-    probs = structure_problems(world.tree)
-    if probs:
+    probs = ["not examined after a hang"] if raised == "Timeout" else structure_problems(world.tree)
+    if raised == "Timeout":
+        fails.append(("hang", "%s did not return within 5 s" % op["op"]))
+    elif probs:
         fails.append(("ill-formed", "after %s%s: %s" % (op["op"], " (raised %s)" % raised if raised else "", "; ".join(probs))))
     else:
         try:
@@ -669,7 +682,7 @@ def do_step(ctx, world, op, hist, pending, single_check=True):
     for kind, what in fails:
         kind = "%s-%s" % (kind, op["op"])      # one console replay per (failure category, operation)
         rep = hist.replay_dict({"failing_step": len(hist.ops) - 1})
-        if single_check:
+        if single_check and raised != "Timeout":
             # try to cut the history down to its last step, restarted from a rebuilt copy of the state before it
             one = {"tree": snap.toks, "rooted": snap.rooted, "limbo": snap.limbo_toks, "nbits": world.nbits, "ops": [dict(op)],
                    "op": op["op"], "failing_step": 0}
@@ -917,6 +930,7 @@ def random_history(ctx, dendropy, rng, pending, max_leaves, max_ops):
             ops = candidates(world, snap, rng, cats={rng.choice(CATS)})
             if ops:
                 break
+        ops = [o for o in ops if o["op"] not in HUNG]
         if not ops:
             break
         if not do_step(ctx, world, rng.choice(ops), hist, pending):
@@ -940,8 +954,10 @@ def exhaustive(ctx, dendropy, rng, pending):
                 w0 = World(dendropy, start["tree"], rooted, None, start["nbits"])
                 first = candidates(w0, Snap(w0), rng, full=True)
                 for op1 in first:
-                    if ctx.out_of_time():
+                    if ctx.out_of_time() or len(ctx.failures) >= MAX_FAILURES:
                         return d1, d2
+                    if op1["op"] in HUNG:
+                        continue
                     run_history(ctx, dendropy, dict(start, ops=[op1]), pending, single_check=True)
                     d1 += 1
                     if len(pending) >= 3000:
@@ -960,8 +976,10 @@ def exhaustive(ctx, dendropy, rng, pending):
                         continue
                     second = expand_targets(w1, rng)
                     for op2 in second:
-                        if ctx.out_of_time():
+                        if ctx.out_of_time() or len(ctx.failures) >= MAX_FAILURES:
                             return d1, d2
+                        if op1["op"] in HUNG or op2["op"] in HUNG:
+                            continue
                         # rebuild the state after op1 from the start (operations mutate in place)
                         run_history(ctx, dendropy, dict(start, ops=[op1, op2]), pending, single_check=True)
                         d2 += 1
@@ -1042,6 +1060,8 @@ def run(ctx):
     t_rand = ctx.pick(1.0, 0.45)
     for k in range(nhist):
         if ctx.out_of_time() or (ctx.tier == "thorough" and ctx.time_left() < (1 - t_rand) * ctx.budget_s):
+            break
+        if len(ctx.failures) >= MAX_FAILURES:
             break
         random_history(ctx, dendropy, rng, pending, ctx.pick(8, 12) if rng.random() < 0.8 else 4, ctx.pick(12, 30) if rng.random() < 0.7 else 30)
         if len(pending) >= 1500:
